@@ -786,8 +786,16 @@ def oracle(case, obs):
             canon.add((tuple(sorted(ws)), tie))
             if tie is not None:
                 tie_places[(tuple(sorted(ws)), tie)] = places
+        # ballots exhausted before all seats were filled (no remaining ballot grades anybody): there is nothing left to spend,
+        # the definition names no further winner; the library's declared refusal is the expected outcome
+        exhausted = {kind for _, kind in results}
         if _is_err(obs):
+            if obs['err'] == 'VotingSystemError' and 'short' in exhausted:
+                return [('allocated_tie_order', 'exhaustion depends on the processing order of tied winners')] \
+                    if 'full' in exhausted else []
             return [('allocated_crash_' + obs['err'], f'reference outcome(s) {sorted(canon, key=str)}')]
+        if exhausted == {'short'}:
+            return [('allocated_refusal_expected', f'ballots exhausted after {sorted(canon, key=str)}, got {obs}')]
         out = []
         cands, ties = canon_sel(obs)
         ok = any(list(ws) == cands and ((tie is None and not ties) or (tie is not None and ties and all(t == tie for t in ties)))
@@ -1568,8 +1576,8 @@ REQUIRED = ['pav_eq_spec', 'pavSpec_some_iff', 'pav_returns_iff_unique_maximiser
             'allocated_spends_one_quota', 'allocated_fraction_out_spec', 'allocated_eq_spec', 'allocatedSelector_eq_weighted', 'allocated_tie_places_fixed',
             'star_members_spec', 'star_member_matrix', 'star_two_finalists',
             'star_single_runoff_fixed', 'star_boundary_tie_fixed', 'star_member_dropped_fixed',
-            'mj_default_tiebreak_witness', 'mj_default_tiebreak_scale_witness', 'allocated_empty_ballot_witness',
-            'allocated_ballots_run_out_witness']
+            'mj_default_tiebreak_witness', 'mj_default_tiebreak_scale_witness', 'allocated_empty_ballot_fixed',
+            'allocated_ballots_exhausted_refused', 'allocated_spending_never_raises']
 
 UNPROVED = [
     'mj_fuel_adequate: that the model of `_tiebreak_default` never exhausts the fuel the driver passes (Σ counts + #candidates + 1); '
@@ -1578,9 +1586,9 @@ UNPROVED = [
     'is C05 territory; for STAR it is proved that the evaluator is called on exactly the member matrix (star_eq_schulze_of_runoff, '
     'star_members_spec, star_member_matrix) and that two finalists are decided by pairwise majority (star_two_finalists)',
     'allocated score outside the domain of allocated_eq_spec: rounds with tied leaders (the elect-all / report-tie branches, '
-    'order dependent: open finding) and profiles where a ballot runs out (the code raises: allocated_*_witness, open findings); '
-    'proved: equality with the round-by-round definition on every profile where each round has a strict winner and no ballot '
-    'runs out (allocated_eq_spec), and the exact quota spending of every seat',
+    'order dependent: open finding); proved: equality with the round-by-round definition on every profile where each round has a '
+    'strict winner (allocated_eq_spec; ballots grading nobody any more are harmless, exhaustion is the declared refusal), and '
+    'the exact quota spending of every seat',
 ]
 NOT_VERIFIED = [
     'iteration order of a Python set of candidates (Tie, frozenset) is modelled as ascending candidate id; the harness uses '
